@@ -6,6 +6,9 @@
 (* and then tat' = max(tat, t) + T; otherwise it is refused with the hint  *)
 (* wait = tat - (B-1)*T - t > 0 (ReturnError) or waits that long (Block).  *)
 (* Discrete time; every arrival pattern of a few requests over 2 keys.     *)
+(* This is the quota as the property states it.  governor 0.6 deviates for *)
+(* a key whose state has gone stale (one cell more at once): recorded as a  *)
+(* known finding for C19, demonstrated by the harness' rate-stale-probe.    *)
 (***************************************************************************)
 EXTENDS Naturals, Integers, Sequences, FiniteSets, TLC, Json
 
